@@ -67,6 +67,7 @@ Deviations from DESIGN / things the code forced:
 from __future__ import annotations
 
 import ast
+import re
 import struct
 from typing import Any, Dict, List, Optional, Tuple
 
@@ -635,6 +636,45 @@ def _own_payloads(acc: Acc, ent: Entry, block: Block, ctxval, dom: sg.Domain, pi
     return _encode_own(acc, ent, block, ctxval, mine), (vals[0][1] if vals else None)
 
 
+_COMP_RE = re.compile(r"^(.*c\d+:([US]\d+))\.raw=(-?\d+)$")
+
+
+def wire_component_payloads(part: Part, ent: Entry, block: Block, ctxval, dom: sg.Domain) -> List[Tuple[bytes, str]]:
+    """Wire-first tier 1 for quantised vector / packed-quaternion components: the byte position of each component is
+    located by comparing the serializer's own payloads for the component's lowest and highest raw (they differ in every
+    byte of the component and nowhere else); then every raw of the component alphabet is written there directly.
+    Such a payload is one the serializer can itself produce (the encoding of the value with that component replaced by
+    the decoding of the raw) as long as the component codec is raw-exact (C10) and containers pass components through."""
+    if _is_raw_adapter(ent):
+        return []
+    groups: Dict[str, Tuple[str, Dict[int, Any]]] = {}
+    for v, tag in own_values(ent, ctxval, dom):
+        m = _COMP_RE.match(tag)
+        if m:
+            groups.setdefault(m.group(1), (m.group(2), {}))[1][int(m.group(3))] = v
+    out: List[Tuple[bytes, str]] = []
+    for prefix, (wire, byraw) in groups.items():
+        lo, hi = sg.int_range(wire)
+        fmt, size = sg.INT_FMT[wire], sg.INT_BITS[wire] // 8
+        try:
+            p_lo, p_hi = bytes(ent.ser.serialize(block, byraw[lo])), bytes(ent.ser.serialize(block, byraw[hi]))
+        except Exception:
+            part.count("splice_unlocatable")
+            continue
+        diffs = [i for i in range(min(len(p_lo), len(p_hi))) if p_lo[i] != p_hi[i]]
+        if len(p_lo) != len(p_hi) or not diffs:
+            part.count("splice_unlocatable")
+            continue
+        off = diffs[0]
+        if diffs[-1] >= off + size or p_lo[off:off + size] != struct.pack(fmt, lo) or p_hi[off:off + size] != struct.pack(fmt, hi):
+            part.count("splice_unlocatable")
+            continue
+        part.count("splice_components")
+        for r in byraw:
+            out.append((p_hi[:off] + struct.pack(fmt, r) + p_hi[off + size:], f"{prefix}.wire={r}"))
+    return out
+
+
 def unit_payload(item) -> dict:
     """Tier 1.  item = (entry index, slice k, slices n): variant j of every context is handled by slice j % n."""
     idx, k, n = item
@@ -651,6 +691,11 @@ def unit_payload(item) -> dict:
             n_own += 1
             for pod in (False, True):
                 check_payload(acc, ent, block, ctxval, p, tag, pod, 1, pformat=_THOROUGH or j < 8)
+        if k == 0:
+            for p, tag in wire_component_payloads(part, ent, block, ctxval, dom):
+                part.count("tier1_wire_spliced")
+                for pod in (False, True):
+                    check_payload(acc, ent, block, ctxval, p, tag, pod, 1, pformat=False)
     part.count("tier1_payloads", n_own)
     part.count("payload_units")
     acc.flush()
@@ -724,6 +769,197 @@ def unit_tier2(item) -> dict:
         part.sample({"family": "payload", "key": ent.keystr, "serializer": ent.adapter_kind, "ctx_field": ent.ctx_field,
                      "contexts": len(context_values(ent, _THOROUGH)), "tier2_candidates": len(feed),
                      "first_candidate": {"ctx": first[0], "payload": first[1], "tag": first[2]} if first else None}, limit=1)
+    acc.flush()
+    return part.dump()
+
+
+# ------------------------------------------------------------------------------------------------ (g) encode history
+_HDOM: List[Any] = []
+_HVALS: Dict[Tuple[int, Any], List[Tuple[Any, str]]] = {}
+
+
+def _hvals(ent: Entry, ctxval) -> List[Tuple[Any, str]]:
+    """Per-process cache of the (quick-domain) non-None values of an entry/context, for the history family."""
+    key = (ent.idx, ctxval)
+    if key not in _HVALS:
+        if not _HDOM:
+            _HDOM.append(sg.Domain(False))
+        _HVALS[key] = [x for x in own_values(ent, ctxval, _HDOM[0]) if x[0] is not None]
+    return _HVALS[key]
+
+
+class _Poison:
+    """A value no primitive can encode."""
+
+    def __repr__(self):
+        return "<poison>"
+
+
+def _leaf_paths(v: Any, path: Tuple[int, ...] = ()) -> List[Tuple[int, ...]]:
+    """Positional paths (dict members by position, so they survive JSON) of the leaves of a plain-data value."""
+    if isinstance(v, dict) and v:
+        out = []
+        for i, x in enumerate(v.values()):
+            out += _leaf_paths(x, path + (i,))
+        return out
+    if isinstance(v, (list, tuple)) and v and not isinstance(v, dtypes.TupleCoord):
+        out = []
+        for i, x in enumerate(v):
+            out += _leaf_paths(x, path + (i,))
+        return out
+    return [path]
+
+
+def _replace_at(v: Any, path: Tuple[int, ...], new: Any) -> Any:
+    if not path:
+        return new
+    i = path[0]
+    if isinstance(v, dict):
+        keys = list(v.keys())
+        return {k: (_replace_at(x, path[1:], new) if j == i else x) for j, (k, x) in enumerate(zip(keys, v.values()))}
+    seq = [(_replace_at(x, path[1:], new) if j == i else x) for j, x in enumerate(v)]
+    return tuple(seq) if isinstance(v, tuple) else seq
+
+
+def failing_edits(ent: Entry, ctxval, dom: sg.Domain, limit: int = 3) -> List[Tuple[int, ...]]:
+    """Leaf positions of the entry's base value at which an unencodable member makes the template encode raise *after*
+    at least one byte was written (probed with a private writer on the serializer's own template)."""
+    tmpl = template_for(ent, ctxval, dom)
+    if tmpl is None or tmpl is se.UNSERIALIZABLE or _is_raw_adapter(ent):
+        return []
+    vals = _hvals(ent, ctxval)
+    if not vals:
+        return []
+    base = vals[0][0]
+    good = []
+    for path in _leaf_paths(base):
+        if not path:
+            continue
+        w = se.BufferWriter("<")
+        try:
+            w.write(tmpl, _replace_at(base, path, _Poison()))
+        except Exception:
+            if len(w.buffer) > 0:
+                good.append(path)
+    if len(good) > limit:
+        good = [good[0], good[len(good) // 2], good[-1]][:limit]
+    return good
+
+
+_FOREIGN_FAIL: Dict[int, Optional[Tuple[int, Any, Tuple[int, ...]]]] = {}
+
+
+def foreign_fail(ent: Entry) -> Optional[Tuple[int, Any, Tuple[int, ...]]]:
+    """(entry index, context, path) of a partially-failing encode of a *different* registered template serializer."""
+    if ent.idx not in _FOREIGN_FAIL:
+        found = None
+        dom = sg.Domain(False)
+        for other in _ENTRIES:
+            if other.kind != "payload" or other.ser is ent.ser or other.idx == ent.idx:
+                continue
+            for c in context_values(other, False):
+                try:
+                    fe = failing_edits(other, c, dom, limit=1)
+                except Exception:
+                    fe = []
+                if fe:
+                    found = (other.idx, c, fe[0])
+                    break
+            if found:
+                break
+        _FOREIGN_FAIL[ent.idx] = found
+    return _FOREIGN_FAIL[ent.idx]
+
+
+def _do_fail(idx: int, ctxval, path: Tuple[int, ...]) -> bool:
+    """Run one failing encode through the real serializer; True iff it raised."""
+    other = _ENTRIES[idx]
+    bad = _replace_at(_hvals(other, ctxval)[0][0], tuple(path), _Poison())
+    try:
+        other.ser.serialize(make_block(other, ctxval), bad)
+    except Exception:
+        return True
+    return False
+
+
+def run_history(part: Part, ent: Entry, ctxval, fails: List[Tuple[int, Any, Tuple[int, ...]]], op: str, vtag: str, foreign: bool) -> bool:
+    """Encode history: expected bytes from two consecutive encodes before any failure, then the failing encodes, then
+    one operation: 'obj' = serialize(value), 'pod' = serialize(pod form of the expected bytes), 'block' = Block.serialize_var."""
+    block = make_block(ent, ctxval)
+    vals = [x for x in _hvals(ent, ctxval) if x[1] == vtag]
+    if not vals:
+        return True
+    v = vals[0][0]
+    ser = ent.ser
+    site = f"{ent.keystr}{ctx_label(ent, ctxval)}:after-failed-encode" + (":foreign" if foreign else "")
+    w = {"kind": "history", "key": list(ent.key), "ctx": ctxval, "fails": [[i, c, list(p)] for i, c, p in fails], "op": op, "vtag": vtag,
+         "foreign": foreign}
+    try:
+        ser.serialize(block, v)
+        expected = bytes(ser.serialize(block, v))
+        if op == "pod":
+            v = ser.deserialize(block, expected, pod=True)
+            if v is se.UNSERIALIZABLE:
+                return True
+            ser.serialize(block, v)
+            expected = bytes(ser.serialize(block, v))
+    except Exception:
+        return True  # families (c)/(d) judge whether the value encodes at all
+    for i, c, path in fails:
+        if not _do_fail(i, c, path):
+            part.count("history_fail_did_not_raise")
+            return True
+    try:
+        if op == "block":
+            blk = make_block(ent, ctxval, b"")
+            blk.serialize_var(ent.key[2], v)
+            got = blk[ent.key[2]]
+        else:
+            got = ser.serialize(block, v)
+    except Exception as e:
+        part.violation("encode-independent", site, w, f"{op} encode of {vtag} raised {e!r} after the failed encode(s), it worked before them")
+        return False
+    if not isinstance(got, (bytes, bytearray)) or bytes(got) != expected:
+        part.violation("encode-independent", site, w, f"{op} encode of {vtag} after {len(fails)} failed encode(s) gives {_show(got)}, before them "
+                                                      f"{_show(expected)}")
+        return False
+    return True
+
+
+def unit_history(ent: Entry) -> dict:
+    """(g) for every context with a template: up to 3 partially-failing edits x sequences [fail], [fail, fail], [foreign fail],
+    [foreign fail, fail] x operations {obj, pod, block} x values {base + next two variants}."""
+    part = Part()
+    acc = Acc(part)
+    dom = sg.Domain(False)
+    ff = foreign_fail(ent)
+    n_ctx = 0
+    for ctxval in context_values(ent, False):
+        try:
+            fes = failing_edits(ent, ctxval, dom)
+        except (ins.IntrospectionError, sg.UnknownSpec, AttributeError):
+            fes = []
+        if not fes:
+            continue
+        n_ctx += 1
+        tags = [t for _, t in _hvals(ent, ctxval)][:3]
+        for path in fes:
+            own = (ent.idx, ctxval, path)
+            seqs = [([own], False), ([own, own], False)]
+            if ff is not None:
+                seqs += [([ff], True), ([ff, own], True)]
+            for fails, foreign in seqs:
+                for op in ("obj", "pod", "block"):
+                    for vtag in tags:
+                        acc.evals += 1
+                        if run_history(part, ent, ctxval, fails, op, vtag, foreign):
+                            acc.nontrivial((ent.idx, ctxval, "history", path, len(fails), foreign, op, vtag))
+        acc.outcome((ent.idx, ctxval, "history", len(fes), ff is not None))
+    part.count("history_units")
+    part.count("history_contexts", n_ctx)
+    if n_ctx:
+        part.sample({"family": "encode-history", "key": ent.keystr, "contexts_with_failing_edit": n_ctx,
+                     "foreign_fail": None if ff is None else [_ENTRIES[ff[0]].keystr, ff[1], list(ff[2])]}, limit=1)
     acc.flush()
     return part.dump()
 
@@ -977,6 +1213,8 @@ def _work_unit(item) -> dict:
         return unit_cache(_ENTRIES[item[1]])
     if kind == "assign":
         return unit_assign(_ENTRIES[item[1]])
+    if kind == "history":
+        return unit_history(_ENTRIES[item[1]])
     raise ValueError(kind)
 
 
@@ -1042,6 +1280,8 @@ def run(run: Run):
             units.append(("cache", e.idx))
         if e.kind == "int" and not e.is_date:
             units.append(("assign", e.idx))
+        if e.kind == "payload":
+            units.append(("history", e.idx))
     order = heavy + units
     _worked_samples(run)
     coord_fallbacks = dict(ins.FALLBACKS)  # the coordinator's own share (registry view, slicing); workers report theirs
@@ -1133,6 +1373,9 @@ def _replay_local(w: dict) -> List[dict]:
         _encode_own(acc, ent, block, w.get("ctx"), vals)
     elif kind == "cache":
         return unit_cache(ent)["violations"]
+    elif kind == "history":
+        run_history(part, ent, w.get("ctx"), [(int(i), c, tuple(int(x) for x in p)) for i, c, p in w["fails"]], w["op"], w["vtag"],
+                    bool(w.get("foreign")))
     elif kind == "cache-seq":
         run_assign_sequence(part, ent, w.get("ctx"), int(w["init"]), [(st, int(n)) for st, n in w["steps"]], w["mode"], "replay")
     return list(part.viol.values())
